@@ -43,6 +43,16 @@ def tweak(rng, row, w, case):
                     words.append((0x8000 + 4 * rng.randrange(0, 0x30)) | rng.choice((0, 0, 1, 2)))
             blob = b''.join(x.to_bytes(4, 'little') for x in words)
             case['poke'].append([base - 40, blob.hex()])
+        if nm.startswith(('RFE', 'LDM_eret')) and 'drsrs[0]' in st and 'n' in f and f['n'] <= 14 and rng.random() < 0.3:
+            # a one-word no-access MPU region somewhere in (or next to) the frame: the Data Abort can fall on any word of the transfer, also the last
+            # one (the return address) - the base register must then be unchanged so that the handler can retry
+            for r in range(12):
+                st['drsrs[%d]' % r] = 0
+            st['drsrs[0]'], st['drbars[0]'], st['dracrs[0]'] = (31 << 1) | 1, 0, 3 << 8
+            st['drsrs[11]'], st['drbars[11]'], st['dracrs[11]'] = (1 << 1) | 1, (st[gen.bank_key(f['n'], mode)] + 4 * rng.randrange(-18, 18)) & 0xFFFFFFFC, 0
+            st['mpuir'] = 12 << 8
+            st['sctlr'] = (st['sctlr'] | 1) & ~(1 << 13)
+            st['vbar'] = 0
         for r14 in ('R.LRsvc', 'R.LRirq', 'R.LRfiq', 'R.LRabt', 'R.LRund', 'R.LRmon', 'elr_hyp'):
             if rng.random() < 0.7:
                 st[r14] = (0x8000 + 4 * rng.randrange(0, 0x30)) | rng.choice((0, 0, 0, 1, 2, 3))
